@@ -168,7 +168,7 @@ def history(srv, rng, res, ctl, hn):
             free = [cl for cl in clients if cl.alive and cl.blocked is None]
             blocked = [cl for cl in clients if cl.alive and cl.blocked is not None]
             act = rng.choice(["block", "block", "block", "push", "push", "push", "pop", "pipeline", "multi-push", "script-push",
-                              "disconnect", "timeout", "block-fast"])
+                              "disconnect", "timeout", "block-fast", "rename-push"])
             if act in ("block", "block-fast") and free:
                 cl = rng.choice(free)
                 keys = rng.sample(KEYS, rng.choice([1, 1, 2, 3]))
@@ -196,11 +196,13 @@ def history(srv, rng, res, ctl, hn):
                     cl.blocked = dict(keys=keys, left=left, deadline=None if infinite else t0 + timeout, t_send=t0, timeout=timeout, infinite=infinite)
                     sim.waiters.append(cl)
                     settle(3)
-            elif act in ("push", "multi-push", "script-push"):
+            elif act in ("push", "multi-push", "script-push", "rename-push"):
                 who = rng.choice(free) if free else None
                 if who is None:
                     continue
                 k = rng.choice(KEYS)
+                if act == "rename-push" and sim.lists[k]:
+                    act = "push"       # RENAME would replace what the key holds: only onto an empty key
                 n = rng.choice([1, 1, 2, 3])
                 elems = [elem() for _ in range(n)]
                 leftpush = rng.random() < 0.5
@@ -208,6 +210,11 @@ def history(srv, rng, res, ctl, hn):
                 log.append("c%d %s%s %s %s" % (who.i, "[%s] " % act if act != "push" else "", op.decode(), k.decode(), b" ".join(elems).decode()))
                 if act == "push":
                     r = who.c.cmd(op, k, *elems)
+                elif act == "rename-push":
+                    # the elements reach the key without any push command naming it
+                    who.c.cmd("DEL", "c13:tmp")
+                    who.c.cmd(op, b"c13:tmp", *elems)
+                    r = who.c.cmd("RENAME", "c13:tmp", k)
                 elif act == "multi-push":
                     who.c.cmd("MULTI")
                     who.c.cmd(op, k, *elems)
@@ -414,6 +421,36 @@ def stalled_pass(srv, res, rng):
                         w.close()
                     pusher.close()
                     server.wait_loops(ctl, 3)
+    # a blocking pop that reaches the server while a pass is stalled: its timeout runs from when the server
+    # takes it up (at the earliest from when the client sent it), never from the start of that pass
+    for stall_name, stall in STALLS:
+        for pop in (b"BLPOP", b"BRPOP"):
+            for order in ("staller-first", "waiter-first"):
+                st = srv.client(timeout=20) if order == "staller-first" else None
+                w = srv.client(timeout=20)
+                if st is None:
+                    st = srv.client(timeout=20)
+                key = b"sp:t:%d" % rng.randrange(10 ** 6)
+                st.send(*stall(300))
+                time.sleep(0.12)
+                t_send = time.monotonic()
+                w.send(pop, key, b"0.4")
+                try:
+                    r = w.recv(timeout=10)
+                    t_nil = time.monotonic()
+                    st.recv(timeout=10)
+                except (Closed, Timeout):
+                    r, t_nil = "no reply", None
+                res.evaluations += 1
+                res.cell("stalled-pass", "timeout-from-stalled-pass", stall_name, pop.decode(), order)
+                if r is not resp.NULL_ARRAY:
+                    res.violation("timeout/stalled-pass/wrong-reply", "%s %s 0.4 sent while the command thread was stalled (%s) -> %s" % (pop.decode(), resp.show(key), stall_name, resp.show(r)))
+                elif t_nil - t_send < 0.4 - 0.005:
+                    res.violation("early-nil/stalled-pass", "%s %s 0.4 sent 120 ms into a 300 ms stall (%s, %s): nil arrived %.0f ms after the client sent the command, "
+                                  "before the 400 ms it asked to wait" % (pop.decode(), resp.show(key), stall_name, order, (t_nil - t_send) * 1000))
+                w.close()
+                st.close()
+                server.wait_loops(ctl, 3)
     reg = ctl.cmd("VERIF", "BLOCKED")
     if isinstance(reg, list) and reg and reg[0]:
         res.violation("residue/stalled-pass", "registrations left after all clients of the stalled-pass scenarios are gone: %s" % resp.show(reg[0]))
